@@ -77,10 +77,18 @@ Definition el_write (o : mopts) (l : list bnal) : list wnal :=
   map (fun '(t, d) => (sc_len (mo_annexb o) (if t =? 62 then 62 else 63) false, d)) l.
 
 (* ---------------- BL side ---------------- *)
-Record mstate := mkMs {
-  m_fb_number : N; m_fb : list bnal;       (* frame buffer *)
-  m_el : elstate;
-  m_out : list wnal }.
+(* the EL side of a flush: resume the reader if fewer than two frames are queued (always at the end),
+   then write the front frame if it is known to be complete (more than one queued) or at the end *)
+Definition el_part (p : profile) (o : mopts) (final : bool) (e : elstate) : outcome (list wnal * elstate) :=
+  let* el := if final then el_read p o (S (List.length (el_rest e))) e
+             else if (List.length (el_frames e) <? 2)%nat
+                  then el_read p o (S (List.length (el_rest e))) e else Ok e in
+  Ok (if final || (1 <? List.length (el_frames el))%nat then
+        match el_frames el with
+        | (_, l) :: t => (el_write o l, mkEl (el_rest el) t (el_last el))
+        | [] => ([], el)
+        end
+      else ([], el)).
 
 Definition write_buffers (o : mopts) (frame_start : bool) (l : list bnal) : list wnal :=
   map (fun '(i, (t, d)) => (sc_len (mo_annexb o) t (Nat.eqb i 0 && frame_start && negb (t =? 35)), d))
@@ -88,52 +96,63 @@ Definition write_buffers (o : mopts) (frame_start : bool) (l : list bnal) : list
 
 Definition is_eos_b (b : bnal) : bool := is_eos (fst b).
 
-(* flush of the buffered BL frame when the first NAL of the next frame arrives (or at the end) *)
-Definition mux_flush (p : profile) (o : mopts) (fs : list frame) (final : bool) (s : mstate)
-  : outcome mstate :=
-  let* buf := if mo_no_add_aud o then Ok (m_fb s)
-              else match frame_of_dec fs (m_fb_number s) with
-                   | Some f => Ok ((35, aud_for f) :: m_fb s)
-                   | None => if final then Panic site_arith else Err
-                   end in
-  let bl_part := if mo_eos_before_el o then buf else filter (fun b => negb (is_eos_b b)) buf in
-  let tail := if mo_eos_before_el o then [] else filter is_eos_b buf in
-  let out1 := m_out s ++ write_buffers o true bl_part in
-  let* el := if final then el_read p o (S (List.length (el_rest (m_el s)))) (m_el s)
-             else if (List.length (el_frames (m_el s)) <? 2)%nat
-                  then el_read p o (S (List.length (el_rest (m_el s)))) (m_el s) else Ok (m_el s) in
-  let '(elw, el') :=
-      if final || (1 <? List.length (el_frames el))%nat then
-        match el_frames el with
-        | (_, l) :: t => (el_write o l, mkEl (el_rest el) t (el_last el))
-        | [] => ([], el)
-        end
-      else ([], el) in
-  Ok (mkMs (m_fb_number s) [] el' (out1 ++ elw ++ write_buffers o false tail)).
+(* The BL side is written once, generically in the type E of the EL side's state and in the
+   function that produces the EL part of an access unit: the implementation instance is the
+   stateful reader / queue above, the specification instance (MuxAlign.v) a plain counter into
+   the list of EL frames. *)
+Section MuxGen.
+  Context {E : Type}.
+  Context (elpart : bool -> E -> outcome (list wnal * E)).
 
-Definition mux_step (p : profile) (o : mopts) (fs : list frame) (s : mstate) (ni : nal * N)
-  : outcome mstate :=
-  let '(n, idx) := ni in
-  let t := ntype n in
-  let* hd := if mo_drop o && (t =? 39) then remove_hdr10plus (ndata n) else Ok (false, None) in
-  let '(has40, repl) := hd in
-  if has40 && negb (is_some repl) then Ok s
-  else
-    let* s := if negb (m_fb_number s =? idx)
-              then (let* s' := mux_flush p o fs false s in Ok (mkMs idx [] (m_el s') (m_out s')))
-              else Ok s in
-    if (t =? 62) || (t =? 63) then Ok s
-    else if negb (mo_no_add_aud o) && (t =? 35) then Ok s
+  Record mstate := mkMs {
+    m_fb_number : N; m_fb : list bnal;       (* frame buffer *)
+    m_el : E;
+    m_out : list wnal }.
+
+  (* flush of the buffered BL frame when the first NAL of the next frame arrives (or at the end) *)
+  Definition mux_flush (o : mopts) (fs : list frame) (final : bool) (s : mstate) : outcome mstate :=
+    let* buf := if mo_no_add_aud o then Ok (m_fb s)
+                else match frame_of_dec fs (m_fb_number s) with
+                     | Some f => Ok ((35, aud_for f) :: m_fb s)
+                     | None => if final then Panic site_arith else Err
+                     end in
+    let bl_part := if mo_eos_before_el o then buf else filter (fun b => negb (is_eos_b b)) buf in
+    let tail := if mo_eos_before_el o then [] else filter is_eos_b buf in
+    let out1 := m_out s ++ write_buffers o true bl_part in
+    let* '(elw, el') := elpart final (m_el s) in
+    Ok (mkMs (m_fb_number s) [] el' (out1 ++ elw ++ write_buffers o false tail)).
+
+  Definition mux_step (o : mopts) (fs : list frame) (s : mstate) (ni : nal * N) : outcome mstate :=
+    let '(n, idx) := ni in
+    let t := ntype n in
+    let* hd := if mo_drop o && (t =? 39) then remove_hdr10plus (ndata n) else Ok (false, None) in
+    let '(has40, repl) := hd in
+    if has40 && negb (is_some repl) then Ok s
     else
-      let data := match repl with Some d => d | None => ndata n end in
-      Ok (mkMs (m_fb_number s) (m_fb s ++ [(t, data)]) (m_el s) (m_out s)).
+      let* s := if negb (m_fb_number s =? idx)
+                then (let* s' := mux_flush o fs false s in Ok (mkMs idx [] (m_el s') (m_out s')))
+                else Ok s in
+      if (t =? 62) || (t =? 63) then Ok s
+      else if negb (mo_no_add_aud o) && (t =? 35) then Ok s
+      else
+        let data := match repl with Some d => d | None => ndata n end in
+        Ok (mkMs (m_fb_number s) (m_fb s ++ [(t, data)]) (m_el s) (m_out s)).
 
-Fixpoint mux_nals (p : profile) (o : mopts) (fs : list frame) (s : mstate) (l : list (nal * N))
-  : outcome mstate :=
-  match l with
-  | [] => Ok s
-  | x :: t => let* s' := mux_step p o fs s x in mux_nals p o fs s' t
-  end.
+  Fixpoint mux_nals (o : mopts) (fs : list frame) (s : mstate) (l : list (nal * N)) : outcome mstate :=
+    match l with
+    | [] => Ok s
+    | x :: t => let* s' := mux_step o fs s x in mux_nals o fs s' t
+    end.
+
+  (* process_nals over the whole BL, then finalize: (output, EL state after the last flush if any) *)
+  Definition mux_run (o : mopts) (fs : list frame) (ix : list (nal * N)) (e0 : E) : outcome (list wnal * option E) :=
+    let* s := mux_nals o fs (mkMs 0 [] e0 []) ix in
+    if negb (m_fb_number s =? N.of_nat (List.length fs)) && negb (match m_fb s with [] => true | _ => false end)
+    then
+      let* s' := mux_flush o fs true s in
+      Ok (m_out s', Some (m_el s'))
+    else Ok (m_out s, None).
+End MuxGen.
 
 (* (output, error flag for a BL/EL frame count mismatch) *)
 Definition mux (p : profile) (o : mopts) (bl : list nal) (el_batches : list (list nal))
@@ -141,12 +160,11 @@ Definition mux (p : profile) (o : mopts) (bl : list nal) (el_batches : list (lis
   let ix := assign_indices ps0 bl in
   let fs := ordered_frames ix in
   let elix := assign_indices ps0 (concat el_batches) in
-  let* s := mux_nals p o fs (mkMs 0 [] (mkEl (rebatch el_batches elix) [] 0) []) ix in
-  if negb (m_fb_number s =? N.of_nat (List.length fs)) && negb (match m_fb s with [] => true | _ => false end)
-  then
-    let* s' := mux_flush p o fs true s in
-    Ok (m_out s', negb (match el_frames (m_el s') with [] => true | _ => false end))
-  else Ok (m_out s, false).
+  let* '(out, e) := mux_run (el_part p o) o fs ix (mkEl (rebatch el_batches elix) [] 0) in
+  Ok (out, match e with
+           | Some el => negb (match el_frames el with [] => true | _ => false end)
+           | None => false
+           end).
 
 (* ---------------- specification ---------------- *)
 (* NALs of one frame index, in order *)
